@@ -82,7 +82,8 @@ fn layer_s(l: &Layer) -> LayerS {
     }
     LayerS {
         size: (w, h),
-        offset: (l.get_offset().x, l.get_offset().y),
+        // the stored offset; a pending preview offset (drag in progress) is front-end state that undo may clear
+        offset: (l.get_base_offset().x, l.get_base_offset().y),
         properties: l.properties.clone(),
         role: l.role,
         transparency: l.transparency,
